@@ -6,6 +6,7 @@ package relationtuple
 import (
 	"context"
 	"fmt"
+	"strconv"
 	"sync"
 
 	"github.com/gofrs/uuid"
@@ -112,7 +113,9 @@ func (s *SubjectSet) Equals(other Subject) bool {
 }
 
 func (s *SubjectSet) UniqueID() uuid.UUID {
-	return uuid.NewV5(s.Object, s.Namespace+"-"+s.Relation)
+	// The namespace is length-prefixed so that ("a-b", "c") and ("a", "b-c") on the
+	// same object do not collide.
+	return uuid.NewV5(s.Object, strconv.Itoa(len(s.Namespace))+":"+s.Namespace+"-"+s.Relation)
 }
 
 func (s *SubjectSet) String() string {
